@@ -59,7 +59,10 @@ class Tracer:
             fn = getattr(rec, nm, None)
             if fn is not None and hasattr(fn, '__code__'):
                 self.span_codes.add(fn.__code__)
-        self.event = event
+        # 'xline': line events in EVERY Python frame below count() -- also standard-library code the package calls
+        # (fractions, copy, sort keys, ...), where a real ^C can land just as well; the harness's own frames excluded
+        self.foreign = event == 'xline'
+        self.event = 'line' if self.foreign else event
         self.k = k
         self.mech = mech
         # sweep mode: {event number: [(mech, payload), ...]}.  At each scheduled event the process forks once per
@@ -175,6 +178,8 @@ class Tracer:
         span_codes = self.span_codes
         ev = self.event
         opc = ev == 'opcode'
+        foreign = self.foreign
+        harness_dir = os.path.dirname(os.path.abspath(__file__)) + os.sep
         if self.sweep_ks:
             k = self.sweep_ks[0]
         else:
@@ -269,6 +274,8 @@ class Tracer:
                     if code in span_codes:
                         span_depth += 1
                         return span_local
+                    return local
+                if foreign and not code.co_filename.startswith(harness_dir):
                     return local
                 return None
             if code is count_code and not st.done:
